@@ -165,6 +165,17 @@ func (p *WorkerPool) SubmitWait(execute func() interface{}) (interface{}, bool) 
 
 // Stop shuts down the worker pool gracefully
 func (p *WorkerPool) Stop() {
+	// Stop and Resize tear down and rebuild the same fields (queue, context,
+	// worker count), so they are serialised by resizeMu.
+	p.resizeMu.Lock()
+	defer p.resizeMu.Unlock()
+	p.stopLocked(true)
+}
+
+// stopLocked stops the pool; the caller holds resizeMu. With refuseQueued the
+// tasks left in the queue are answered as "not executed"; Resize passes false
+// and re-queues them itself.
+func (p *WorkerPool) stopLocked(refuseQueued bool) {
 	// Use atomic to ensure we only stop once
 	if !atomic.CompareAndSwapInt32(&p.running, 1, 0) {
 		return // Not running
@@ -175,13 +186,14 @@ func (p *WorkerPool) Stop() {
 
 	// Close the task queue under closeMu so that no Submit is mid-send.
 	p.closeMu.Lock()
+	queue := p.taskQueue
 	func() {
 		defer func() {
 			if r := recover(); r != nil {
 				// Channel was already closed, ignore the panic
 			}
 		}()
-		close(p.taskQueue)
+		close(queue)
 	}()
 	p.closeMu.Unlock()
 
@@ -192,9 +204,11 @@ func (p *WorkerPool) Stop() {
 	// their submitters (a closed result channel reads as "not executed", and
 	// ExecuteWithWorker then runs the task itself) instead of leaving them
 	// blocked forever. The queue was closed above, so this loop terminates.
-	for task := range p.taskQueue {
-		if task.ResultChan != nil {
-			close(task.ResultChan)
+	if refuseQueued {
+		for task := range queue {
+			if task.ResultChan != nil {
+				close(task.ResultChan)
+			}
 		}
 	}
 
@@ -237,7 +251,7 @@ func (p *WorkerPool) Resize(maxWorkers int) {
 	// Stop the pool if it's running
 	// This will close the old queue and wait for all workers to finish
 	if wasRunning {
-		p.Stop()
+		p.stopLocked(false) // resizeMu is held; queued tasks are re-queued below
 	}
 
 	// Drain remaining tasks from old queue and notify callers.
@@ -256,12 +270,15 @@ func (p *WorkerPool) Resize(maxWorkers int) {
 		}
 	}
 
+	// Swap queue and context under closeMu: Submit reads them under its read lock
+	p.closeMu.Lock()
 	// Update the max workers
 	p.maxWorkers = maxWorkers
 	// Create a new task queue with appropriate size
 	p.taskQueue = make(chan Task, maxWorkers*2)
 	// Create a new context
 	p.ctx, p.cancel = context.WithCancel(context.Background())
+	p.closeMu.Unlock()
 	// Reset active workers count
 	atomic.StoreInt32(&p.activeWorkers, 0)
 
@@ -274,9 +291,11 @@ func (p *WorkerPool) Resize(maxWorkers int) {
 			select {
 			case p.taskQueue <- task:
 			default:
-				// Queue full, notify caller of failure
+				// Queue full: the task will not run here. A closed result
+				// channel tells the submitter so (a nil result would read
+				// as a successful execution).
 				if task.ResultChan != nil {
-					task.ResultChan <- nil
+					close(task.ResultChan)
 				}
 			}
 		}
@@ -284,7 +303,7 @@ func (p *WorkerPool) Resize(maxWorkers int) {
 		// Pool wasn't running, notify callers of dropped tasks
 		for _, task := range pendingTasks {
 			if task.ResultChan != nil {
-				task.ResultChan <- nil
+				close(task.ResultChan)
 			}
 		}
 	}
